@@ -198,6 +198,7 @@ type refSet struct {
 	dropDesc  bool
 	dropIFSC  bool
 	dropCreat bool
+	recvFirst bool // recovery packets written before every other packet of the volume
 	dupMain   bool
 	// declared whole-file MD5 (nil: the real one); exercises the final hash check
 	fileHash []byte
@@ -268,6 +269,10 @@ func (r *refSet) build() (index, volume []byte) {
 	}
 	index = refWrite(setID, common, -1, 0)
 	vol := append([]refPkt(nil), common...)
+	if r.recvFirst {
+		// packet order is free: recovery packets ahead of the main packet
+		vol = nil
+	}
 	for k, e := range r.exps {
 		body := put32(e)
 		if r.validRecovery {
@@ -287,6 +292,9 @@ func (r *refSet) build() (index, volume []byte) {
 			body = append(body, rt.Bytes("recv"+string(rune('0'+k)), r.recvLen)...)
 		}
 		vol = append(vol, refPkt{"PAR 2.0\x00RecvSlic", body})
+	}
+	if r.recvFirst {
+		vol = append(vol, common...)
 	}
 	volume = refWrite(setID, vol, -1, 0)
 	return
@@ -375,6 +383,7 @@ func VerifHarness_C19_recovery_fields() {
 	r := baseRefSet()
 	r.exps = []uint32{bExponent[rt.Choice("exponent", len(bExponent))]}
 	r.recvLen = 4 * rt.Choice("recvWords", 3)
+	r.recvFirst = rt.Bool("recoveryFirst")
 	state := rt.Choice("dataState", 3)
 	s := refScenario(r, state != 1)
 	if state == 2 {
